@@ -1386,9 +1386,9 @@ class BaseCfgLine(object):
             raise NotImplementedError(error)
 
         if recurse is False:
-            return [cobj for cobj in self.children if cobj.re_search(regex)]
+            return [cobj for cobj in self.children if re.search(regex, cobj.text) is not None]
         else:
-            return [cobj for cobj in self.all_children if cobj.re_search(regex)]
+            return [cobj for cobj in self.all_children if re.search(regex, cobj.text) is not None]
 
     # On BaseCfgLine()
     @logger.catch(reraise=True)
